@@ -543,6 +543,8 @@ func runSingleByte(c *mon.Case) {
 
 // ---- partition parser ------------------------------------------------------
 
+var partWitnesses = []string{"M,p=3-10/9223372036854775807\n", "M,p=3-10/99999999999999999999\n", "M,p=1-10/3,2-10/3\nN,q=3-10/3"}
+
 var partSeeds = []string{
 	"M1,p1=1-10\n", "M1,p1=1-10/3\nM2,p2=2-10/3\nM3,p3=3-10/3\n", "GTR,a=1-5\nGTR,b=6-10\n", "M,p=1-3,7-10\nN,q=4-6\n", "M, p = 1-10\n", "M,p=1-10/3,2-10/3\nN,q=3-10/3",
 }
@@ -552,12 +554,19 @@ func runPartition(c *mon.Case) {
 	in := []byte(partSeeds[r.Intn(len(partSeeds))])
 	other := []byte(partSeeds[r.Intn(len(partSeeds))])
 	var muts []string
-	for i, d := 0, r.Range(0, 3); i < d; i++ {
+	depth := r.Range(0, 3)
+	if c.Idx < len(partWitnesses) {
+		in, depth = []byte(partWitnesses[c.Idx]), 0
+	}
+	for i, d := 0, depth; i < d; i++ {
 		var m string
 		in, m = mutate(r, in, other)
 		muts = append(muts, m)
 	}
 	L := r.PickInt([]int{1, 9, 10, 11, 30})
+	if c.Idx < len(partWitnesses) {
+		L = 30
+	}
 	c.Input(map[string]interface{}{"input": string(in), "length": L, "mutations": muts})
 	var ps *align.PartitionSet
 	var err error
